@@ -136,6 +136,7 @@ var excC08P5 = map[string]excEntry{
 }
 
 var excE2 = map[string]string{
+	"(*tlb.MsgAddress).UnmarshalJSON R-ignored strconv.ParseInt":       "format probe: the first field is tried as a decimal workchain; when it does not parse the text is one of the other address forms, which the following branches handle",
 	"(*boc.BitString).Append R-drop boc.BitString.WriteBitString":      "explicit '_ =': the receiver was grown by the missing number of bits just before, so the write fits",
 	"(*boc.BitString).ReadRemainingBits R-drop boc.BitString.ReadBits": "reads exactly BitsAvailableForRead() bits, which cannot fail",
 	"(*boc.BitString).ToFiftHex R-drop boc.BitString.WriteBit":         "writes the padding bit into a copy grown by 4-len%4 bits just before",
